@@ -126,6 +126,7 @@ struct Scenario {
     msgs: Vec<Vec<u8>>,
     shape: u8,      // 0 burst (one write / back-to-back sends), 1 per message, 2 spaced 2 ms, 3 adversarial cuts
     fragment: bool, // W raw sender: split messages into continuation frames
+    controls: Vec<usize>, // W raw sender: a Ping / Pong / Text message is written right before message i
 }
 
 fn transport(t: char) -> Transport {
@@ -149,6 +150,7 @@ fn run_scenario(sc: &Scenario, rng: &mut Rng) -> Result<(Vec<usize>, Vec<Vec<u8>
         Node(TestNode, Endpoint),
         RawTcp(TcpStream),
         RawWs(tungstenite::WebSocket<TcpStream>),
+        Taken, // the raw WebSocket reader runs in its own thread
     }
     let raw_connect = |addr: SocketAddr, ws: bool| -> Result<Side, String> {
         let s = TcpStream::connect(addr).map_err(|e| e.to_string())?;
@@ -245,9 +247,32 @@ fn run_scenario(sc: &Scenario, rng: &mut Rng) -> Result<(Vec<usize>, Vec<Vec<u8>
                 vec![got]
             }))
         }
-        Side::RawWs(_) => None,
+        Side::RawWs(_) | Side::Taken => None,
         Side::Node(..) => None,
     };
+
+    // a raw WebSocket receiver reads while the sender sends (big messages do not fit the socket buffers)
+    let mut ws_rx_thread = None;
+    if matches!(rx, Side::RawWs(_)) {
+        if let Side::RawWs(mut sock) = std::mem::replace(&mut rx, Side::Taken) {
+            ws_rx_thread = Some(std::thread::spawn(move || {
+                sock.get_mut().set_read_timeout(Some(DELIVERY_TIMEOUT + Duration::from_secs(20))).ok();
+                let mut got: Vec<Vec<u8>> = vec![];
+                while got.len() < expected_count {
+                    match sock.read() {
+                        Ok(tungstenite::Message::Binary(b)) => got.push(b.to_vec()),
+                        Ok(_) => continue,
+                        Err(_) => break,
+                    }
+                }
+                sock.get_mut().set_read_timeout(Some(Duration::from_millis(80))).ok();
+                if let Ok(tungstenite::Message::Binary(b)) = sock.read() {
+                    got.push(b.to_vec());
+                }
+                got
+            }));
+        }
+    }
 
     // --- send
     let t_send0 = Instant::now();
@@ -316,7 +341,15 @@ fn run_scenario(sc: &Scenario, rng: &mut Rng) -> Result<(Vec<usize>, Vec<Vec<u8>
         Side::RawWs(sock) => {
             use tungstenite::protocol::frame::{coding::{Data, OpCode}, Frame};
             use tungstenite::Message;
-            for m in &sc.msgs {
+            for (i, m) in sc.msgs.iter().enumerate() {
+                if sc.controls.contains(&i) {
+                    let ctl = match i % 3 {
+                        0 => Message::Ping(b"hi".to_vec().into()),
+                        1 => Message::Pong(b"yo".to_vec().into()),
+                        _ => Message::Text("not for the user".into()),
+                    };
+                    sock.write(ctl).map_err(|e| e.to_string())?;
+                }
                 if sc.fragment && m.len() >= 2 {
                     let mid = m.len() / 2;
                     sock.write(Message::Frame(Frame::message(m[..mid].to_vec(), OpCode::Data(Data::Binary), false))).map_err(|e| e.to_string())?;
@@ -334,6 +367,7 @@ fn run_scenario(sc: &Scenario, rng: &mut Rng) -> Result<(Vec<usize>, Vec<Vec<u8>
             }
             sock.flush().map_err(|e| e.to_string())?;
         }
+        Side::Taken => {}
     }
     // --- then SILENCE: nothing else is ever sent on this connection
     let observed: Vec<Vec<u8>> = match &mut rx {
@@ -355,22 +389,8 @@ fn run_scenario(sc: &Scenario, rng: &mut Rng) -> Result<(Vec<usize>, Vec<Vec<u8>
             n.messages()
         }
         Side::RawTcp(_) => raw_rx_thread.unwrap().join().unwrap(),
-        Side::RawWs(sock) => {
-            sock.get_mut().set_read_timeout(Some(DELIVERY_TIMEOUT)).ok();
-            let mut got = vec![];
-            while got.len() < expected_count {
-                match sock.read() {
-                    Ok(tungstenite::Message::Binary(b)) => got.push(b.to_vec()),
-                    Ok(_) => continue,
-                    Err(_) => break,
-                }
-            }
-            sock.get_mut().set_read_timeout(Some(Duration::from_millis(80))).ok();
-            if let Ok(tungstenite::Message::Binary(b)) = sock.read() {
-                got.push(b.to_vec());
-            }
-            got
-        }
+        Side::RawWs(_) => vec![],
+        Side::Taken => ws_rx_thread.take().unwrap().join().unwrap_or_default(),
     };
     let note = format!("{}ms", t_send0.elapsed().as_millis());
     drop(tx);
@@ -390,7 +410,7 @@ fn e2e_row(sc: &Scenario, rng: &mut Rng) -> (String, String, String, String) {
         if sc.receiver == Peer::Node { "node" } else { "raw" },
         if sc.sender_connects { ",c2a" } else { ",a2c" },
         sc.shape,
-        if sc.fragment { ",fragmented" } else { "" },
+        if sc.fragment { if sc.controls.is_empty() { ",fragmented" } else { ",fragmented,control" } } else if sc.controls.is_empty() { "" } else { ",control" },
         if sc.msgs.len() >= 3 && sc.shape == 0 { ",burst3" } else { "" }
     );
     let sizes: Vec<usize> = sc.msgs.iter().map(|m| m.len()).collect();
@@ -404,7 +424,20 @@ fn e2e_row(sc: &Scenario, rng: &mut Rng) -> (String, String, String, String) {
         Ok((cuts, observed, _note)) => {
             let cuts_s = if cuts.is_empty() { "-".to_string() } else { cuts.iter().map(|c| c.to_string()).collect::<Vec<_>>().join(",") };
             let tcode = if sc.t == 'F' && sc.receiver == Peer::Raw { 'f' } else { sc.t };
-            let case = format!("stream e2e {} {} {}", tcode, cuts_s, sc.msgs.iter().map(|m| chunk_to_text(m)).collect::<Vec<_>>().join(" "));
+            let toks: Vec<String> = sc
+                .msgs
+                .iter()
+                .enumerate()
+                .flat_map(|(i, m)| {
+                    let mut v = vec![];
+                    if sc.controls.contains(&i) {
+                        v.push("ctl".to_string());
+                    }
+                    v.push(chunk_to_text(m));
+                    v
+                })
+                .collect();
+            let case = format!("stream e2e {} {} {}", tcode, cuts_s, toks.join(" "));
             let (imp, ok) = if sc.t == 'T' {
                 let all: Vec<u8> = observed.concat();
                 let bounds_ok = sc.receiver == Peer::Raw || observed.iter().all(|c| !c.is_empty() && c.len() <= message_io::adapters::tcp::INPUT_BUFFER_SIZE);
@@ -477,14 +510,20 @@ fn gen_e2e(out: &mut impl std::io::Write, seed: u64, n: u64, big: bool, which: &
     // corpus first: F7 (three back-to-back Ws messages, then silence), both directions and peers
     if which.contains('W') {
         for (s, r, c) in [(Peer::Node, Peer::Node, true), (Peer::Node, Peer::Node, false), (Peer::Raw, Peer::Node, true), (Peer::Node, Peer::Raw, true)] {
-            scenarios.push(Scenario { t: 'W', sender: s, receiver: r, sender_connects: c, msgs: (0..3).map(|i| make_msg(i, 10)).collect(), shape: 0, fragment: false });
+            scenarios.push(Scenario { t: 'W', sender: s, receiver: r, sender_connects: c, msgs: (0..3).map(|i| make_msg(i, 10)).collect(), shape: 0, fragment: false, controls: vec![] });
+        }
+    }
+    if which.contains('W') {
+        // a Ping / Pong / Text message and a Binary message behind it in the same write, then silence
+        for (c, controls) in [(true, vec![0usize]), (false, vec![1]), (true, vec![0, 1, 2])] {
+            scenarios.push(Scenario { t: 'W', sender: Peer::Raw, receiver: Peer::Node, sender_connects: c, msgs: (0..3).map(|i| make_msg(i, 9 + i)).collect(), shape: 0, fragment: false, controls });
         }
     }
     if which.contains('F') {
         // every byte of a 2-, 3- and 4-byte prefix in a separate write, then silence
         for sizes in [vec![200usize, 10], vec![16384, 10], vec![20000, 0, 10], vec![1 << 21, 10]] {
             let msgs = sizes.iter().enumerate().map(|(i, s)| make_msg(i, *s)).collect();
-            scenarios.push(Scenario { t: 'F', sender: Peer::Raw, receiver: Peer::Node, sender_connects: true, msgs, shape: 4, fragment: false });
+            scenarios.push(Scenario { t: 'F', sender: Peer::Raw, receiver: Peer::Node, sender_connects: true, msgs, shape: 4, fragment: false, controls: vec![] });
         }
     }
     for _ in 0..n {
@@ -493,7 +532,13 @@ fn gen_e2e(out: &mut impl std::io::Write, seed: u64, n: u64, big: bool, which: &
         let sizes = gen_sizes(&mut rng, big, t);
         let msgs: Vec<Vec<u8>> = sizes.iter().enumerate().map(|(i, s)| make_msg(i, *s)).collect();
         let shape = if sender == Peer::Raw { rng.below(4) as u8 } else { *rng.pick(&[0u8, 0, 2]) };
-        scenarios.push(Scenario { t, sender, receiver, sender_connects: rng.chance(2, 3), msgs, shape, fragment: t == 'W' && sender == Peer::Raw && rng.chance(1, 2) });
+        let controls: Vec<usize> = if t == 'W' && sender == Peer::Raw && rng.chance(1, 2) {
+            (0..msgs.len()).filter(|_| rng.chance(1, 2)).collect()
+        }
+        else {
+            vec![]
+        };
+        scenarios.push(Scenario { t, sender, receiver, sender_connects: rng.chance(2, 3), msgs, shape, fragment: t == 'W' && sender == Peer::Raw && rng.chance(1, 2), controls });
     }
     // run 8 scenarios at a time
     let results = Arc::new(Mutex::new(vec![None; scenarios.len()]));
@@ -508,7 +553,15 @@ fn gen_e2e(out: &mut impl std::io::Write, seed: u64, n: u64, big: bool, which: &
             if i >= scenarios.len() {
                 break
             }
+            let dbg = std::env::var("VERIF_DEBUG").is_ok();
+            if dbg {
+                let sc = &scenarios[i];
+                eprintln!("start #{} t={} sender_node={} receiver_node={} c2a={} shape={} frag={} ctl={:?} sizes={:?}", i, sc.t, sc.sender == Peer::Node, sc.receiver == Peer::Node, sc.sender_connects, sc.shape, sc.fragment, sc.controls, sc.msgs.iter().map(|m| m.len()).collect::<Vec<_>>());
+            }
             let row = e2e_row(&scenarios[i], &mut r);
+            if dbg {
+                eprintln!("done  #{}", i);
+            }
             results.lock().unwrap()[i] = Some(row);
         }));
     }
@@ -727,10 +780,22 @@ fn main() {
                 let ws: Vec<&str> = line.split(' ').collect();
                 if ws.len() >= 4 && ws[0] == "stream" && ws[1] == "e2e" {
                     let t = ws[2].chars().next().unwrap_or('F').to_ascii_uppercase();
-                    let msgs: Option<Vec<Vec<u8>>> = ws[4..].iter().map(|m| text_to_chunk(m)).collect();
+                    let mut controls = vec![];
+                    let mut chunks = vec![];
+                    for tok in &ws[4..] {
+                        if *tok == "ctl" {
+                            controls.push(chunks.len());
+                        }
+                        else {
+                            chunks.push(*tok);
+                        }
+                    }
+                    let msgs: Option<Vec<Vec<u8>>> = chunks.iter().map(|m| text_to_chunk(m)).collect();
                     match msgs {
                         Some(msgs) => {
-                            let sc = Scenario { t, sender: Peer::Node, receiver: Peer::Node, sender_connects: true, msgs, shape: 0, fragment: false };
+                            // control messages need an independent (tungstenite) sender
+                            let sender = if controls.is_empty() { Peer::Node } else { Peer::Raw };
+                            let sc = Scenario { t, sender, receiver: Peer::Node, sender_connects: true, msgs, shape: 0, fragment: false, controls };
                             let (c, i, o, tg) = e2e_row(&sc, &mut rng);
                             emit(&mut out, &c, &i, &o, &tg);
                         }
